@@ -23,7 +23,10 @@ macro_rules! dispatch {
             "C03" => $f::<props::c03::C03>($($a),*),
             "C04" => $f::<props::c04::C04>($($a),*),
             "C05" => $f::<props::c05::C05>($($a),*),
+            "C13" => $f::<props::c13::C13>($($a),*),
             "C14" => $f::<props::c14::C14>($($a),*),
+            "C15" => $f::<props::c15::C15>($($a),*),
+            "C17" => $f::<props::c17::C17>($($a),*),
             other => {
                 eprintln!("unknown or unclaimed property {other}");
                 2
